@@ -49,6 +49,8 @@ WellFormed(idx) ==
         /\ IsDirE(idx[k]) => (idx[k].h = NoH \/ idx[k].h = DirH(Sig(idx, k)))
         /\ (IsDirE(idx[k]) /\ idx[k].h # NoH) => \A c \in Desc(k) : IsEntry(idx[c]) /\ ~IsDirE(idx[c]) => HasHash(idx[c])
         /\ (IsEntry(idx[k]) /\ ~IsDirE(idx[k])) => idx[k].h.k \in {"f", "n"}
+        \* the directory-object format is flat: a sub-directory of a hashed directory has no hash of its own
+        /\ (IsDirE(idx[k]) /\ idx[k].h # NoH) => \A c \in Desc(k) : IsDirE(idx[c]) => idx[c].h = NoH
 
 (************************ key-by-key classification ************************)
 \* _diff_meta / _diff_hash_info on one aspect value ("-" = no entry, "none" = not set)
@@ -104,13 +106,17 @@ Visit ==
     /\ pc = "bfs" /\ queue # <<>>
     /\ LET fr == Head(queue)
            ks == fr.o \cup fr.n
-           typ(k) == Table(old[k], new[k], Mode(opts))
+           \* the entries compared are those of the two child listings: a key that one side did not
+           \* list (shallow) looks absent on that side
+           oe(k) == IF k \in fr.o THEN old[k] ELSE NoEntry
+           ne(k) == IF k \in fr.n THEN new[k] ELSE NoEntry
+           typ(k) == Table(oe(k), ne(k), Mode(opts))
            skip(k) == /\ opts.hash_only /\ ~opts.unchanged /\ typ(k) = "unchanged"
-                      /\ HasHash(old[k]) /\ IsDirHash(old[k].h)
+                      /\ HasHash(oe(k)) /\ IsDirHash(oe(k).h)
            descend(k) == ~skip(k) /\ ((k \in fr.o /\ InfoDir(old, k)) \/ (k \in fr.n /\ InfoDir(new, k)))
            more == {[o |-> Items(old, k, opts.shallow), n |-> Items(new, k, opts.shallow)] : k \in {x \in ks : descend(x)}}
            morenz == {f \in more : f.o \cup f.n # {}}
-       IN /\ out' = out \cup {<<typ(k), k>> : k \in {x \in ks : (IsEntry(old[x]) \/ IsEntry(new[x])) /\ Reported(typ(x), opts)}}
+       IN /\ out' = out \cup {<<typ(k), k>> : k \in {x \in ks : (IsEntry(oe(x)) \/ IsEntry(ne(x))) /\ Reported(typ(x), opts)}}
           /\ queue' = Tail(queue) \o SetToSeq(morenz)     \* the order of the frontier does not matter
     /\ UNCHANGED <<old, new, opts, pc>>
 
@@ -123,20 +129,23 @@ InitQueue(o, n) == IF TopItems(o) \cup TopItems(n) = {} THEN <<>> ELSE <<[o |-> 
 Next == Visit \/ Finish
 
 (******************************* C08 predicates *****************************)
+\* `shallow` deliberately does not look below a directory that carries a hash; the statement
+\* makes no claim about that mode, so keys below a hashed directory are out of scope there
+BelowHashed(o, n, k) == \E anc \in Keys : Under(k, anc) /\ (HasHash(o[anc]) \/ HasHash(n[anc]))
+Scope(o, n, op) == IF op.shallow THEN {k \in Keys : ~BelowHashed(o, n, k)} ELSE Keys
 \* on any reported set of <<typ, key>> changes `r` for inputs (o, n, op)
 C08_Once(r) == \A c1, c2 \in r : c1[2] = c2[2] => c1 = c2
 C08_Keys(o, n, op, r) ==
-    LET got == {c[2] : c \in r} IN
+    LET got == {c[2] : c \in r} \cap Scope(o, n, op) IN
     /\ got \subseteq Either(o, n)
-    /\ (op.unchanged /\ ~op.shallow) => got = Either(o, n)
-C08_Labels(o, n, op, r) == \A c \in r : c[1] \in Allowed(o[c[2]], n[c[2]], Mode(op))
-\* nothing that differs in the compared aspect is hidden; with `shallow` a difference below a
-\* hashed directory is represented by that directory being reported as changed
-CoveredBy(o, n, k, r) == \E c \in r : c[1] # "unchanged" /\ Under(k, c[2]) /\ (HasHash(o[c[2]]) \/ HasHash(n[c[2]]))
+    /\ op.unchanged => got = Either(o, n) \cap Scope(o, n, op)
+C08_Labels(o, n, op, r) ==
+    \A c \in r : c[2] \in Scope(o, n, op) => c[1] \in Allowed(o[c[2]], n[c[2]], Mode(op))
+\* nothing that differs in the compared aspect is hidden (hash_only / meta_only / the
+\* unchanged-hashed-subtree shortcut)
 C08_NothingHidden(o, n, op, r) ==
-    \A k \in Either(o, n) :
-        ("unchanged" \notin Allowed(o[k], n[k], Mode(op)))
-            => ((\E c \in r : c[2] = k /\ c[1] # "unchanged") \/ (op.shallow /\ CoveredBy(o, n, k, r)))
+    \A k \in Either(o, n) \cap Scope(o, n, op) :
+        ("unchanged" \notin Allowed(o[k], n[k], Mode(op))) => \E c \in r : c[2] = k /\ c[1] # "unchanged"
 C08_NoUnchangedUnlessAsked(op, r) == ~op.unchanged => \A c \in r : c[1] # "unchanged"
 
 Inv_Done ==
